@@ -135,14 +135,21 @@ def check(prop, tier, seed, replay=None):
             "replay_cmd": f"./check {prop} --replay <this file>"})
         violations.append({"what": what, "replay": rp, "nofail": False})
 
-    # smallest failing inputs first (a cheap shrink); report at most 3 of them
+    # smallest failing inputs first (a cheap shrink); known findings are matched for all
+    # of them, at most 3 unlisted ones are written out as replays
     spec_sorted = sorted(spec_fail, key=lambda i: len(json.dumps(cases[i], default=str)))
-    if len(spec_sorted) > 3:
-        notes.append(f"{len(spec_sorted)} failing inputs; the 3 smallest are reported")
-    for i in spec_sorted[:3] + [i for i in spec_sorted[3:] if hasattr(mod, 'finding_key')
-                                and mod.finding_key(cases[i], obs[i]) is not None]:
-        report_failure(cases[i], obs[i], "implementation differs from the specification oracle: "
-                       + mod.describe(cases[i], obs[i]))
+    n_new = 0
+    for i in spec_sorted:
+        key = mod.finding_key(cases[i], obs[i]) if hasattr(mod, "finding_key") else None
+        if key is not None and key in kmap:
+            known_hits.append(key)
+            continue
+        n_new += 1
+        if n_new <= 3:
+            report_failure(cases[i], obs[i], "implementation differs from the specification oracle: "
+                           + mod.describe(cases[i], obs[i]))
+    if n_new > 3:
+        notes.append(f"{n_new} failing inputs not listed as known findings; the 3 smallest are reported")
     for (case, o, what) in extra:
         report_failure(case, o, what)
     only_model = [i for i in model_fail if i not in set(spec_fail)]
